@@ -37,6 +37,16 @@ CONSTANTS = {
          r"alignment\s*==\s*\d+\s*\|\|\s*alignment\s*==\s*\d+\s*\|\|\s*alignment\s*==\s*(\d+)\s*\|\|\s*alignment\s*==\s*\d+\s*;", "int"),
         ("ALIGN_3", "arrow-ipc/src/writer.rs",
          r"alignment\s*==\s*\d+\s*\|\|\s*alignment\s*==\s*\d+\s*\|\|\s*alignment\s*==\s*\d+\s*\|\|\s*alignment\s*==\s*(\d+)\s*;", "int"),
+        # --- validity-bitmap accounting per metadata version (writer, reader, projection skip) ---
+        # writer `has_validity_bitmap`: below this version only Null has no bitmap; from it on also Union and RunEndEncoded
+        ("HAS_VALIDITY_SPLIT_VERSION", "arrow-ipc/src/writer.rs",
+         r"fn\s+has_validity_bitmap\(data_type:\s*&DataType,\s*write_options:\s*&IpcWriteOptions\)\s*->\s*bool\s*\{\s*if\s+write_options\.metadata_version\s*<\s*crate::MetadataVersion::V(\d)\s*\{\s*!matches!\(data_type,\s*DataType::Null\)\s*\}\s*else\s*\{\s*!matches!\(\s*data_type,\s*DataType::Null\s*\|\s*DataType::Union\(_,\s*_\)\s*\|\s*DataType::RunEndEncoded\(_,\s*_\)\s*\)\s*\}\s*\}", "int"),
+        # reader `create_array`, Union arm: the validity buffer is consumed below this version
+        ("READ_UNION_VALIDITY_BELOW", "arrow-ipc/src/reader.rs",
+         r"Union\(fields,\s*mode\)\s*=>\s*\{\s*let\s+union_node\s*=\s*self\.next_node\(field\)\?;\s*let\s+len\s*=\s*union_node\.length\(\)\s*as\s+usize;\s*(?://[^\n]*\n\s*)*if\s+self\.version\s*<\s*MetadataVersion::V(\d)\s*\{\s*self\.next_buffer\(\)\?;\s*\}", "int"),
+        # reader `skip_field`, Union arm — the whole arm: validity below this version, type ids, offsets iff dense, then every child
+        ("SKIP_UNION_VALIDITY_BELOW", "arrow-ipc/src/reader.rs",
+         r"Union\(fields,\s*mode\)\s*=>\s*\{\s*if\s+self\.version\s*<\s*MetadataVersion::V(\d)\s*\{\s*self\.skip_buffer\(\);[^\n]*\n\s*\}\s*self\.skip_buffer\(\);[^\n]*\n\s*match\s+mode\s*\{\s*UnionMode::Dense\s*=>\s*self\.skip_buffer\(\),[^\n]*\n\s*UnionMode::Sparse\s*=>\s*\{\}\s*\}\s*for\s*\(_,\s*field\)\s*in\s+fields\.iter\(\)\s*\{\s*self\.skip_field\(field,\s*variadic_count\)\?\s*\}\s*\}", "int"),
         # Flight default target message size (tuning knob; theorems quantify over every value)
         ("GRPC_TARGET_MAX_FLIGHT_SIZE_BYTES", "arrow-flight/src/encode.rs",
          r"pub\s+const\s+GRPC_TARGET_MAX_FLIGHT_SIZE_BYTES\s*:\s*usize\s*=\s*([^;]+);", "int"),
